@@ -143,8 +143,9 @@ theorem upChildArrive_post (P : Params K) (t : Nat) (s : St K V) (key : K) (f : 
       | none => exact absurd h (hpre.pad key)
       | some x => exact ⟨x, rfl⟩
     have hso' : SplitOut s.tree.order s.tree.nextId c l r := by rw [hpre.order]; exact hso
-    obtain ⟨hoccl, hoccr, hlenl, hlenr⟩ := hso'.occ (m' := s.tree.order / 2) hoccC hok.order4 hok.even (Nat.le_refl _)
-    have ho4 := hok.order4
+    obtain ⟨hoccl, hoccr, hlenl, hlenr⟩ := hso'.occ (m' := s.tree.order / 2) hoccC hok.order2 hok.even (Nat.le_refl _)
+    have ho4 := hok.order2
+    have hev := hok.even
     obtain ⟨rs, hrs⟩ := smallest_ok r (by rw [hlenr]; omega)
     rw [hp, hrs]
     simp only
@@ -248,7 +249,8 @@ theorem upRootArrive_post (P : Params K) (t : Nat) (s : St K V) (key : K) (f : O
   have hok := hpre.tree
   have hrootmem : (s.tree.rootId, shallow s.tree.root) ∈ s.tree.flat := self_mem_flat s.tree.root
   have hoccR := hok.occ _ hrootmem
-  have ho4 := hok.order4
+  have ho4 := hok.order2
+  have hev := hok.even
   unfold upRootArrive
   simp only
   rcases maybeSplit_cases s.tree.order s.tree.nextId hok.even s.tree.root hoccR with ⟨hlt, hms⟩ | ⟨l, r, hms, hso⟩
@@ -257,7 +259,7 @@ theorem upRootArrive_post (P : Params K) (t : Nat) (s : St K V) (key : K) (f : O
     exact continue_after (s1 := St.rel s t Lk.tree) t key f y hpre (Step.refl hok) hrootmem hlt hHr hcur
   · rw [hms]
     simp only
-    obtain ⟨hoccl, hoccr, hlenl, hlenr⟩ := hso.occ (m' := s.tree.order / 2) hoccR hok.order4 hok.even (Nat.le_refl _)
+    obtain ⟨hoccl, hoccr, hlenl, hlenr⟩ := hso.occ (m' := s.tree.order / 2) hoccR hok.order2 hok.even (Nat.le_refl _)
     obtain ⟨ls, hls⟩ := smallest_ok l (by rw [hlenl]; omega)
     obtain ⟨rs, hrs⟩ := smallest_ok r (by rw [hlenr]; omega)
     rw [hls, hrs]
